@@ -211,3 +211,18 @@ package interceptor
 //@        (vwp.Value.Kind() == reflect.Ptr && vwp.Value.IsNil()) || res1(getParentFieldType(vwp)) == visit.Skip || typeis(vwp.Value.Interface(), "*history.History")
 //@   ensures @history_not_walked_twice: result1 == nil && !(vwp.Value.Kind() == reflect.Ptr && vwp.Value.IsNil()) && res1(getParentFieldType(vwp)) == "" &&
 //@        typeis(vwp.Value.Interface(), "*history.History") && cast(vwp.Value.Interface(), "*history.History") != nil ==> result0 == visit.Skip
+
+// C14: the search-attribute visitor's callback. A typed container (*common.SearchAttributes) is translated as a
+// whole and the walk then continues INTO it, so the name of its map field must not itself be a search-attribute
+// field name (its keys would be renamed a second time); Skip is returned only below nil pointers / unexported fields.
+//@ extern visitSearchAttributes@visitSearchAttributes$1(logger, obj, match)
+//@   assigns *
+//@ extern translateIndexedFields@visitSearchAttributes$1(fields, match)
+//@   assigns nothing
+//@ contract visitSearchAttributes$1
+//@   props C14
+//@   pure match
+//@   ensures @skip_only_where_handled: result0 == visit.Skip ==>
+//@        (vwp.Value.Kind() == reflect.Ptr && vwp.Value.IsNil()) || res1(getParentFieldType(vwp)) == visit.Skip
+//@   ensures @container_translated_once: result0 == visit.Continue && result1 == nil && typeis(vwp.Value.Interface(), "*common.SearchAttributes") &&
+//@        searchAttributeFieldNames[res0(getParentFieldType(vwp)).Name] && !dataBlobFieldNames[res0(getParentFieldType(vwp)).Name] ==> !searchAttributeFieldNames["IndexedFields"]
